@@ -9,6 +9,7 @@ import Rl.Lemmas.EditorSafe2
 import Rl.Lemmas.EditorGrow
 import Rl.Lemmas.EditorLoops
 import Rl.Lemmas.EditorNextAll
+import Rl.Lemmas.EditorReadRet
 import Rl.Props.C09
 namespace Rl
 open EM
@@ -25,14 +26,37 @@ def PE (o : Outcome) (s : Ed) : Prop := o = .panic → D43 s
 abbrev RSafe {α : Type} (cfg : EdCfg) (m : EM α) (s : Ed) : Prop :=
   wp m (fun _ s' => RdInv cfg s') PE s
 
-/-- every `execute` step is safe from the read invariant -/
-def ExecSafe (S : Segmenter) (U : UData) (cfg : EdCfg) : Prop :=
-  ∀ cmd s, RdInv cfg s → RSafe cfg (execute S U cfg cmd) s
+/-- every `execute` step on an acceptable command (`CmdI`: what `next_cmd` returns) is safe from
+    the read invariant together with a cross-step invariant `J` (the facts about the undo log and
+    the kill ring that `RdInv` does not hold), and re-establishes both -/
+def ExecSafe (S : Segmenter) (U : UData) (cfg : EdCfg) (J : Ed → Prop) : Prop :=
+  ∀ cmd s, CmdI cfg cmd → RdInv cfg s → J s →
+    wp (execute S U cfg cmd) (fun _ s' => RdInv cfg s' ∧ J s') PE s
+
+/-- `m` keeps `J` whenever it returns -/
+def KeepsJ {α : Type} (J : Ed → Prop) (m : EM α) : Prop :=
+  ∀ s, J s → wp m (fun _ s' => J s') (fun _ _ => True) s
+
+/-- what the main loop assumes of the cross-step invariant `J`: every `execute` step is safe from it
+    and keeps it, and the other steps of a read keep it -/
+structure RdStep (S : Segmenter) (U : UData) (cfg : EdCfg) (J : Ed → Prop) : Prop where
+  exec : ExecSafe S U cfg J
+  init : ∀ ring input, J (initEd cfg ring input)
+  initText : ∀ b p, KeepsJ J (lb S U (LB.update S U b p))
+  refresh : KeepsJ J (refreshLine S U cfg)
+  next : ∀ fuel, KeepsJ J (nextCmd S U cfg fuel false false)
+  reset : ∀ s, J s → J { s with ring := s.ring.reset }
+  pre : ∀ fuel cmd, KeepsJ J (preCmds S U cfg fuel cmd)
+  susp : ∀ s, J s → J { s with suspends := s.suspends + 1 }
+  nextChar : KeepsJ J nextChar
+  insert : ∀ c, KeepsJ J (editInsert S U cfg c 1)
 
 /-- what the loops assume -/
 structure RdHyp (S : Segmenter) (U : UData) (cfg : EdCfg) : Prop where
   hnp : cfg.hinterPanicAt = none
-  exec : ExecSafe S U cfg
+  /-- the custom bindings are acceptable commands (a bound `ReplaceChar` count fits its type `u16`;
+      `YankPop` is not bound in vi mode) -/
+  binds : BindsI cfg
   /-- the completer contract: the reported start is a character boundary of the line, not beyond
       the cursor -/
   comp : ∀ t p, IsBoundary t (cfg.completer t p).1 ∧ (cfg.completer t p).1 ≤ p
@@ -401,24 +425,45 @@ theorem wp_nextChar_inv {s : Ed} (h : RdInv cfg s) {Q : Char → Ed → Prop}
   | ok r => exact hq _ _ ⟨EdWF.mk' h.1.line h.1.saved h.1.ring, h.2⟩
   | error e => cases e <;> (intro hh; cases hh)
 
-theorem safe_mainLoop (H : RdHyp S U cfg) : ∀ (fuel : Nat) (s : Ed), RdInv cfg s →
+/-- a safe step whose result and input state `RT` describes -/
+theorem rsafe_ri {α : Type} {P : α → Prop} {m : EM α} (hk : RT cfg P m) {s : Ed} (hi : RI cfg s)
+    (hw : RSafe cfg m s) {Q : α → Ed → Prop} (hq : ∀ a s', RdInv cfg s' → RI cfg s' → P a → Q a s') :
+    wp m Q PE s :=
+  wp_mono (RT.wp_and cfg hk hi hw) (fun a s' h => hq a s' h.1 h.2.1 h.2.2) (fun _ _ h => h)
+
+/-- the same with a cross-step invariant `J` that the step keeps -/
+theorem rsafe_rij {α : Type} {J : Ed → Prop} {P : α → Prop} {m : EM α} (hk : RT cfg P m) {s : Ed} (hi : RI cfg s)
+    (hw : RSafe cfg m s) (hj : wp m (fun _ s' => J s') (fun _ _ => True) s) {Q : α → Ed → Prop}
+    (hq : ∀ a s', RdInv cfg s' → RI cfg s' → J s' → P a → Q a s') : wp m Q PE s := by
+  unfold RSafe wp at *
+  cases hm : m s with
+  | error e => rw [hm] at hw; exact hw
+  | ok r =>
+    obtain ⟨a, s'⟩ := r
+    rw [hm] at hw hj
+    obtain ⟨h1, h2⟩ := hk.h s hi a s' hm
+    exact hq a s' hw h1 hj h2
+
+theorem safe_mainLoop {J : Ed → Prop} (H : RdHyp S U cfg) (K : RdStep S U cfg J) :
+    ∀ (fuel : Nat) (s : Ed), RdInv cfg s → RI cfg s → J s →
     RSafe cfg (mainLoop S U cfg fuel) s := by
   intro fuel
   induction fuel with
   | zero =>
-    intro s _
+    intro s _ _ _
     unfold RSafe mainLoop
     simp only [wp_exit]
     intro hh; cases hh
   | succ fuel ih =>
-    intro s h
+    intro s h hi hj
     unfold RSafe mainLoop
     rw [wp_bind]
-    refine wp_nextCmd_inv S U cfg H.hnp h fun cmd0 s1 h1 _ => ?_
+    refine rsafe_rij cfg (rt_nextCmd S U cfg H.binds fuel false false) hi
+      (wp_nextCmd_inv S U cfg H.hnp h fun _ _ h1 _ => h1) (K.next fuel s hj) fun cmd0 s1 h1 hi1 hj1 hc0 => ?_
     -- resetting the ring's last action keeps the invariant
     have hreset : ∀ s1 : Ed, RdInv cfg s1 → RdInv cfg { s1 with ring := s1.ring.reset } :=
       fun s1 h1 => ⟨EdWF.mk' h1.1.line h1.1.saved (RingOK.reset h1.1.ring), h1.2⟩
-    have body : ∀ s2 : Ed, RdInv cfg s2 →
+    have body : ∀ s2 : Ed, RdInv cfg s2 → RI cfg s2 → J s2 →
         wp (do
           match ← preCmds S U cfg fuel cmd0 with
           | none => mainLoop S U cfg fuel
@@ -436,37 +481,46 @@ theorem safe_mainLoop (H : RdHyp S U cfg) : ∀ (fuel : Nat) (s : Ed), RdInv cfg
               | .proceed => mainLoop S U cfg fuel
               | .submit => pure ())
           (fun _ s' => RdInv cfg s') PE s2 := by
-      intro s2 h2
+      intro s2 h2 hi2 hj2
       rw [wp_bind]
-      refine wp_mono (safe_preCmds S U cfg H fuel cmd0 s2 h2) ?_ (fun _ _ h => h)
-      intro r s3 h3
+      refine rsafe_rij cfg (rt_preCmds S U cfg H.binds fuel cmd0 hc0) hi2 (safe_preCmds S U cfg H fuel cmd0 s2 h2)
+        (K.pre fuel cmd0 s2 hj2) ?_
+      intro r s3 h3 hi3 hj3 hr
       cases r with
-      | none => exact ih s3 h3
+      | none => exact ih s3 h3 hi3 hj3
       | some cmd =>
+        have hcmd : CmdI cfg cmd := hr cmd rfl
         simp only []
         split
         · simp only [wp_bind, wp_modify]
           have h3' : RdInv cfg { s3 with suspends := s3.suspends + 1 } :=
             ⟨EdWF.mk' h3.1.line h3.1.saved h3.1.ring, h3.2⟩
-          exact wp_refreshLine_inv S U cfg H.hnp h3' fun s4 h4 _ => ih s4 h4
+          have hi3' : RI cfg { s3 with suspends := s3.suspends + 1 } := hi3
+          exact rsafe_rij cfg (rt_refreshLine S U cfg) hi3'
+            (wp_refreshLine_inv S U cfg H.hnp h3' fun _ h4 _ => h4) (K.refresh _ (K.susp s3 hj3))
+            fun _ s4 h4 hi4 hj4 _ => ih s4 h4 hi4 hj4
         · split
           · rw [wp_bind]
-            refine wp_nextChar_inv cfg h3 fun c s4 h4 => ?_
+            refine rsafe_rij cfg (RT.of_keeps keeps_inp_nextChar) hi3
+              (wp_nextChar_inv cfg h3 fun _ _ h4 => h4) (K.nextChar s3 hj3) fun c s4 h4 hi4 hj4 _ => ?_
             rw [wp_bind]
-            exact wp_mono (safe_editInsert_inv S U cfg H.hnp c 1 h4) (fun _ s5 h5 => ih s5 h5) (fun _ _ h => h)
+            exact rsafe_rij cfg (RT.of_keeps (keeps_inp_editInsert S U cfg c 1)) hi4
+              (safe_editInsert_inv S U cfg H.hnp c 1 h4) (K.insert c s4 hj4) fun _ s5 h5 hi5 hj5 _ => ih s5 h5 hi5 hj5
           · rw [wp_bind]
-            refine wp_mono (H.exec cmd s3 h3) ?_ (fun _ _ h => h)
+            refine wp_mono (RT.wp_and cfg (RT.of_keeps (keeps_inp_execute S U cfg cmd)) hi3 (K.exec cmd s3 hcmd h3 hj3))
+              ?_ (fun _ _ h => h)
             intro st s4 h4
+            obtain ⟨⟨h4, hj4⟩, hi4, _⟩ := h4
             cases st with
-            | proceed => exact ih s4 h4
+            | proceed => exact ih s4 h4 hi4 hj4
             | submit => exact h4
     split
     · simp only [wp_bind, wp_modify]
-      have t := body _ (hreset s1 h1)
+      have t := body _ (hreset s1 h1) hi1 (K.reset s1 hj1)
       simp only [wp_bind] at t
       exact t
     · simp only [wp_bind, wp_pure]
-      have t := body s1 h1
+      have t := body s1 h1 hi1 hj1
       simp only [wp_bind] at t
       exact t
 
@@ -474,7 +528,7 @@ theorem safe_mainLoop (H : RdHyp S U cfg) : ∀ (fuel : Nat) (s : Ed), RdInv cfg
 /-! ### the whole read -/
 
 /-- **the only panic of a whole read is D43**, and the state the read ends with exhibits it -/
-theorem readline_panic_only_D43 (H : RdHyp S U cfg) (ring : KillRing) (hr : RingOK ring) (left right : Text)
+theorem readline_panic_only_D43 {J : Ed → Prop} (H : RdHyp S U cfg) (K : RdStep S U cfg J) (ring : KillRing) (hr : RingOK ring) (left right : Text)
     (input : Input) :
     (readline S U cfg ring left right input).1 = .panic → D43 (readline S U cfg ring left right input).2 := by
   have h0 : RdInv cfg (initEd cfg ring input) :=
@@ -486,27 +540,31 @@ theorem readline_panic_only_D43 (H : RdHyp S U cfg) (ring : KillRing) (hr : Ring
       mainLoop S U cfg (input.size + 2)
       editMove S U cfg (LB.moveBufferEnd S U) : EM Unit)
       (fun _ _ => True) PE (initEd cfg ring input) := by
-    have rest : ∀ s1 : Ed, RdInv cfg s1 →
+    have hi0 : RI cfg (initEd cfg ring input) := ⟨by show (-32768 : Int) ≤ 0; omega, by show (0 : Int) ≤ 32767; omega, trivial⟩
+    have hj0 : J (initEd cfg ring input) := K.init ring input
+    have rest : ∀ s1 : Ed, RdInv cfg s1 → RI cfg s1 → J s1 →
         wp (do
           refreshLine S U cfg
           mainLoop S U cfg (input.size + 2)
           editMove S U cfg (LB.moveBufferEnd S U) : EM Unit)
         (fun _ _ => True) PE s1 := by
-      intro s1 h1
+      intro s1 h1 hi1 hj1
       simp only [wp_bind]
-      refine wp_refreshLine_inv S U cfg H.hnp h1 fun s2 h2 _ => ?_
-      refine wp_mono (safe_mainLoop S U cfg H _ s2 h2) ?_ (fun _ _ h => h)
+      refine rsafe_rij cfg (rt_refreshLine S U cfg) hi1
+        (wp_refreshLine_inv S U cfg H.hnp h1 fun _ h2 _ => h2) (K.refresh s1 hj1) fun _ s2 h2 hi2 hj2 _ => ?_
+      refine wp_mono (safe_mainLoop S U cfg H K _ s2 h2 hi2 hj2) ?_ (fun _ _ h => h)
       intro _ s3 h3
       exact wp_mono (safe_editMove S U cfg (lmsafe_moveBufferEnd S U) h3.1) (fun _ _ _ => trivial) (fun _ _ h => PE.of_ne h)
     simp only []
     split
     · have hb : IsBoundary (left ++ right) (blen left) := isBoundary_mid left right
       rw [wp_bind]
-      refine wp_lb_update_inv S U cfg hb h0 fun s1 h1 _ _ => ?_
-      have t := rest s1 h1
+      refine rsafe_rij cfg (rt_lb S U cfg _) hi0
+        (wp_lb_update_inv S U cfg hb h0 fun _ h1 _ _ => h1) (K.initText _ _ _ hj0) fun _ s1 h1 hi1 hj1 _ => ?_
+      have t := rest s1 h1 hi1 hj1
       simp only [wp_bind] at t ⊢
       exact t
-    · have t := rest _ h0
+    · have t := rest _ h0 hi0 hj0
       simp only [wp_bind] at t ⊢
       exact t
   unfold readline
@@ -520,10 +578,10 @@ theorem readline_panic_only_D43 (H : RdHyp S U cfg) (ring : KillRing) (hr : Ring
     exact hw ho
 
 /-- corollary: a read in which no over-long last insertion is ever re-done does not panic -/
-theorem readline_no_panic (H : RdHyp S U cfg) (ring : KillRing) (hr : RingOK ring) (left right : Text)
+theorem readline_no_panic {J : Ed → Prop} (H : RdHyp S U cfg) (K : RdStep S U cfg J) (ring : KillRing) (hr : RingOK ring) (left right : Text)
     (input : Input) (hd : ¬ D43 (readline S U cfg ring left right input).2) :
     (readline S U cfg ring left right input).1 ≠ .panic :=
-  fun hp => hd (readline_panic_only_D43 S U cfg H ring hr left right input hp)
+  fun hp => hd (readline_panic_only_D43 S U cfg H K ring hr left right input hp)
 
 end
 end Rl
